@@ -1,6 +1,6 @@
 use crate::{hex, Rng, Runner};
 
-pub const CIDQ_RULE: &str = "case = CidQueue::new, then up to maxops NEW_CONNECTION_ID inserts (raw `insert` or the process_payload mirror `frame`), `next`, `active`, `sent`; sequence numbers chosen relative to the current window (behind, inside, at the LEN edge, LEN+retired edge, far ahead up to 2^62-1), retire_prior_to <= sequence (0, window start, inside, = sequence), reordering and exact duplicates; 1 case in 6 is the MALFORMED stream (retire_prior_to > sequence, values >= 2^62 up to u64::MAX, update_initial_cid after the window moved, same sequence with different CID); non-trivial = at least one retirement via retire_prior_to, one `next` that moved, one rejected insert and one duplicate";
+pub const CIDQ_RULE: &str = "case = CidQueue::new, then up to maxops NEW_CONNECTION_ID inserts (raw `insert` or the process_payload mirror `frame`), `next`, `active`, `sent`; sequence numbers chosen relative to the current window (behind, inside, at the LEN edge, LEN+retired edge, far ahead up to 2^62-1), retire_prior_to <= sequence (0, window start, inside, = sequence), reordering and exact duplicates; 1 case in 10 starts with a hostile flood of 48..61 frames naming already retired sequence numbers while nothing is sent (queue of pending retirements must stay <= MAX_PENDING_RETIRED_CIDS + LEN - 1, then CONNECTION_ID_LIMIT_ERROR); 1 case in 6 is the MALFORMED stream (retire_prior_to > sequence, values >= 2^62 up to u64::MAX, update_initial_cid after the window moved, same sequence with different CID); non-trivial = at least one retirement via retire_prior_to, one `next` that moved, one rejected insert and one duplicate";
 
 const LEN: u64 = 5;
 
@@ -25,6 +25,16 @@ fn parse_state(resp: &str) -> Option<(u64, u64, Vec<String>)> {
     }
     let t = &w[w.len() - (LEN as usize + 2)..];
     Some((t[0].parse().ok()?, t[1].parse().ok()?, t[2..].iter().map(|s| s.to_string()).collect()))
+}
+
+const MAX_PENDING_RETIRED_CIDS: usize = 50;
+
+/// number of entries of the `[…]` list (pending.retire_cids) printed by `frame` / `sent`
+fn pending_len(resp: &str) -> Option<usize> {
+    let i = resp.find('[')?;
+    let j = resp.find(']')?;
+    let body = &resp[i + 1..j];
+    Some(if body.is_empty() { 0 } else { body.split(',').count() })
 }
 
 pub fn cidq(rng: &mut Rng, r: &mut Runner, maxops: usize) {
@@ -54,6 +64,41 @@ pub fn cidq(rng: &mut Rng, r: &mut Runner, maxops: usize) {
     let mut last_ok: Option<(u64, u64, String, String, String)> = None; // (seq, rpt, response, cid, token)
     let mut moved = false;
     let far = if rng.chance(1, 5) { (1u64 << 62) - 1 - rng.below(12) } else { rng.biased() >> 2 };
+    let mut pending: usize = 0;
+    let active_empty0 = slots.get(cursor as usize).map_or(false, |x| x.starts_with("-:"));
+    if rng.chance(1, 10) && !active_empty0 {
+        // hostile flood (the fixed defect "already-retired arm ignores MAX_PENDING_RETIRED_CIDS"): make CID 0 retired,
+        // then repeat NEW_CONNECTION_ID frames for retired sequence numbers while nothing is sent
+        let (c, t) = cid_of(1, salt);
+        let resp = r.op(&format!("cidq frame 1 1 {c} {t}"));
+        if let Some((cu, o, sl)) = parse_state(&resp) {
+            cursor = cu;
+            offset = o;
+            slots = sl;
+        }
+        pending = pending_len(&resp).unwrap_or(0);
+        let n = 48 + rng.below(14);
+        for _ in 0..n {
+            let seq = rng.below(offset.max(1));
+            let (c, t) = cid_of(seq, salt);
+            let resp = r.op(&format!("cidq frame {seq} 0 {c} {t}"));
+            if resp == "panic" {
+                r.oracle_fail(&format!("key=cidq-panic frame seq={seq} rpt=0 offset={offset}"));
+                return;
+            }
+            let expect = if pending + 1 > MAX_PENDING_RETIRED_CIDS { "err CONNECTION_ID_LIMIT_ERROR too-many-retired" } else { "ok discarded" };
+            if seq < offset && !resp.starts_with(expect) {
+                r.oracle_fail(&format!("key=cidq-frame-decision flood seq={seq} offset={offset} pending={pending}: expected {expect}, got {resp}"));
+            }
+            if let Some(p) = pending_len(&resp) {
+                pending = p;
+            }
+            if pending > MAX_PENDING_RETIRED_CIDS + LEN as usize - 1 {
+                r.oracle_fail(&format!("key=cidq-retire-cids-unbounded {pending} pending RETIRE_CONNECTION_ID frames"));
+                return;
+            }
+        }
+    }
     for _ in 0..maxops {
         if offset >= (1 << 62) {
             // only reachable through the malformed stream; nothing meaningful can follow
@@ -162,6 +207,7 @@ pub fn cidq(rng: &mut Rng, r: &mut Runner, maxops: usize) {
                 let index = seq.checked_sub(offset);
                 let rc = rpt.saturating_sub(offset);
                 let expect = match index {
+                    None if pending + 1 > MAX_PENDING_RETIRED_CIDS => "err CONNECTION_ID_LIMIT_ERROR too-many-retired",
                     None => "ok discarded",
                     Some(i) if i >= LEN + rc => "err CONNECTION_ID_LIMIT_ERROR limit",
                     Some(_) => "",
@@ -181,6 +227,15 @@ pub fn cidq(rng: &mut Rng, r: &mut Runner, maxops: usize) {
             }
             if resp.starts_with("err") || resp.starts_with("ok discarded") {
                 did_reject = true;
+            }
+            if via_frame {
+                if let Some(p) = pending_len(&resp) {
+                    pending = p;
+                }
+                // oracle (C03 "no unbounded growth"): the queue of pending RETIRE_CONNECTION_ID frames is bounded
+                if valid && pending > MAX_PENDING_RETIRED_CIDS + LEN as usize - 1 {
+                    r.oracle_fail(&format!("key=cidq-retire-cids-unbounded {pending} pending RETIRE_CONNECTION_ID frames"));
+                }
             }
             // ---- oracle: exact duplicates are idempotent
             if dup && valid && !via_frame {
@@ -249,7 +304,10 @@ pub fn cidq(rng: &mut Rng, r: &mut Runner, maxops: usize) {
                 r.oracle_fail(&format!("key=cidq-active-seq {resp} expected seq {offset}"));
             }
         } else if choice < 97 || !malformed {
-            r.op(&format!("cidq sent {}", rng.below(8)));
+            let resp = r.op(&format!("cidq sent {}", rng.below(8)));
+            if let Some(p) = pending_len(&resp) {
+                pending = p;
+            }
         } else {
             // caller-contract violation (not peer controlled): update_initial_cid after the window moved
             let c = hex(&rng.bytes(2));
